@@ -356,11 +356,17 @@ def layer_pe(repo, ci, name, own_constraints=False):
                    ("data_format", "channels_last"), ("use_bias", True),
                    ("padding", "valid"), ("strides", (1, 1)),
                    ("groups", 1), ("output_padding", None),
-                   ("filters", None)):
+                   ("filters", None), ("keepdims", False)):
       own, fn_ = me.cls.find_method(kk)
       if fn_ is not None and kk in own.properties:
         continue     # the class computes it (RNN wrappers ask their cell)
       me.attrs.setdefault(kk, vv)
+    # Keras resolves data_format=None against the global image data format
+    # at construction and serialises the resolved value
+    if "data_format" in k and k["data_format"] is None and \
+        me.attrs.get("data_format") is None:
+      me.attrs["data_format"] = pe_.image_data_format
+      me.attrs["__base_config__"]["data_format"] = pe_.image_data_format
 
   def base_get_config(pe_, a, k):
     me = pe_.external_super_self
@@ -412,6 +418,62 @@ def layer_pe(repo, ci, name, own_constraints=False):
     eo["tf.keras.constraints.get"] = kget
     eo["tf.keras.initializers.get"] = kget
   return pe
+
+
+def rule_rebuilt_layer_computes_the_same(rep, repo, table, rule="R8"):
+  """A pooling layer left at data_format=None while the global image data
+  format is channels_first, and the layer rebuilt from its config (which
+  carries the RESOLVED format): both compute the same function of the same
+  input.  Nothing derived from the raw constructor argument may stand in for
+  the resolved option."""
+  n = 0
+  skipped = {}
+  for name in ("QGlobalAveragePooling2D", "QAveragePooling2D"):
+    cref = table.get(name)
+    ci = getattr(cref, "cls", None)
+    if ci is None:
+      raise AnalysisError("anchor-missing class %s" % name)
+    params = [p for p, _ in ci.init_params()[0]]
+    unit = "%s::%s" % (ci.module.relpath, name)
+    for fmt in ("channels_first", "channels_last"):
+      cfg = "%s(data_format=None) under the global format %s" % (name, fmt)
+      pe = layer_pe(repo, ci, name)
+      pe.image_data_format = fmt
+      kw = dict(average_quantizer="quantized_bits(8,0,1,alpha=1)")
+      if "pool_size" in params:
+        kw["pool_size"] = (2, 2)
+      x = Tensor(("sym", "inputs"), (2, 4, 6, 8))
+      try:
+        o = pe.call(cref, [], dict(kw))
+        conf = pe.call(pe.getattr(o, "get_config"), [], {})
+        conf2 = {k: (v.attrs["obj"] if isinstance(v, Mock) and
+                     v.name == "serialized" else v) for k, v in conf.items()}
+        fowner, ffn = ci.find_method("from_config")
+        if ffn is not None:
+          o2 = pe.call_func(Func(ffn, fowner.module, [], "from_config", cref,
+                                 fowner), [dict(conf2)], {})
+        else:
+          o2 = pe.call(cref, [], dict(conf2))
+        y1 = pe.call(pe.getattr(o, "call"), [x], {})
+        y2 = pe.call(pe.getattr(o2, "call"), [x], {})
+      except (PyRaise, Unsupported) as e:
+        skipped[cfg] = str(e)[:120]
+        continue
+      if not isinstance(y1, Tensor) or not isinstance(y2, Tensor):
+        skipped[cfg] = "call() result is opaque"
+        continue
+      n += 1
+      rep.unit(unit)
+      from ..qir import Fwd
+      from ..nf import show
+      f1, f2 = Fwd()(y1.term), Fwd()(y2.term)
+      rep.check(f1 == f2, rule, unit, "rebuilt-layer-computes-another-"
+                "function", "%s: the layer computes %s, the layer rebuilt "
+                "from its config (data_format=%r) %s" % (
+                    cfg, show(f1, 160), conf.get("data_format"),
+                    show(f2, 160)), loc=ci.loc(), instance=cfg)
+  rep.extra["rebuilt_layers_not_interpretable"] = skipped
+  return n
 
 
 def rule_frozen_then_unfrozen(rep, repo, table, rule="R7"):
@@ -1049,6 +1111,9 @@ def run(rep, repo, tier):
   rule_routes(rep, repo)
   rule_layer_roundtrip(rep, repo, table)
   rep.require_instances("R5", 25)
+  if rule_rebuilt_layer_computes_the_same(rep, repo, table) < 2:
+    raise AnalysisError("instance-count rebuilt pooling layers: %r" %
+                        rep.extra.get("rebuilt_layers_not_interpretable"))
   if rule_frozen_then_unfrozen(rep, repo, table) < 8:
     raise AnalysisError("instance-count frozen layers: %r" %
                         rep.extra.get("frozen_layers_not_interpretable"))
